@@ -149,6 +149,8 @@ mod drop;
 mod hash;
 mod link;
 mod rc;
+#[cfg(cactusref_verif)]
+mod verif;
 
 // Doc modules
 #[cfg(any(doctest, docsrs))]
